@@ -32,6 +32,7 @@ class Unsupported(Exception):
 
 F, I, B = "F", "I", "B"
 VEC = {"V2": 2, "V3": 3, "V4": 4, "V5": 5, "V6": 6, "V10": 10, "Q": 4}
+IVEC = {"I2": 2, "I3": 3, "I4": 4, "I6": 6}
 MAT = {"M22": (2, 2, "V2"), "M33": (3, 3, "V3")}
 
 
@@ -44,8 +45,12 @@ def lean_type(t) -> str:
     return "Bool"
   if isinstance(t, tuple) and t[0] == "tuple":
     return "(" + " × ".join(lean_type(x) for x in t[1]) + ")"
-  if isinstance(t, tuple) and t[0] == "arr":  # read-only array: function of Int indices
+  if isinstance(t, tuple) and t[0] == "arr":  # array: function of Int indices (pre-launch contents)
     return "(" + " → ".join(["Int"] * t[2] + [lean_type(t[1])]) + ")"
+  if t == "WS":
+    return "List (Write K)"
+  if t in IVEC:
+    return t
   return f"{t} K"
 
 
@@ -58,6 +63,10 @@ def zero_of(t) -> str:
     return "false"
   if isinstance(t, tuple) and t[0] == "tuple":
     return "(" + ", ".join(zero_of(x) for x in t[1]) + ")"
+  if t == "WS":
+    return "([] : List (Write K))"
+  if t in IVEC:
+    return f"({t}.zero : {t})"
   return f"({t}.zero : {t} K)"
 
 
@@ -69,6 +78,7 @@ _ANN = {
   "wp.spatial_vector": "V6", "wp.spatial_vectorf": "V6",
   "vec5": "V5", "types.vec5": "V5", "vec6": "V6", "types.vec6": "V6", "vec10": "V10", "types.vec10": "V10",
   "vec10f": "V10", "types.vec10f": "V10",
+  "wp.vec2i": "I2", "wp.vec3i": "I3", "wp.vec4i": "I4", "vec6i": "I6", "types.vec6i": "I6",
 }
 
 
@@ -134,6 +144,15 @@ class FuncTranslator:
     self.name = fn.name
     self.ret_type = None
     self.fresh = 0
+    self.kernel = False          # tier B: @wp.kernel body -> List (Write K)
+    self.writes = False          # function/kernel performs array writes
+    self.alias = {}              # view variable -> (array param name, [prefix index exprs])
+    self.extra_params = []       # (lean name, lean type) appended to the signature (shapes, statics, alloc results, fuel)
+    self.loop_stack = []
+    self.needs_fuel = False
+    self.arr_params = {}
+    self.written_arrays = set()
+    self.static_exprs = {}
 
   def err(self, node, msg):
     raise Unsupported(f"{self.mod.pyname}.{self.name}:{getattr(node, 'lineno', '?')}: {msg}")
@@ -195,6 +214,11 @@ class FuncTranslator:
       if node.id in env.types:
         return self.mod.lname(node.id), env.types[node.id]
       v = self.py_eval(node, env)
+      if v is None and getattr(self, "is_nested", False):
+        nm = "cl_" + node.id
+        if (nm, "Int") not in self.extra_params:
+          self.extra_params.append((nm, "Int"))
+        return nm, I
       return self.const_value(node, v, want)
     if isinstance(node, ast.Attribute):
       s = ast.unparse(node)
@@ -402,20 +426,40 @@ class FuncTranslator:
     self.err(node, f"compare {op.__name__} on {ta}, {tb}")
 
   def subscript(self, node, env):
+    if isinstance(node.value, ast.Attribute) and node.value.attr == "shape" and isinstance(node.value.value, ast.Name):
+      an = node.value.value.id
+      k = self.const_int(node.slice, env)
+      root = self.alias.get(an, (an, []))
+      if root[0] in self.arr_params and k is not None:
+        k2 = k + len(root[1])
+        nm = f"{self.mod.lname(root[0])}_shape{k2}"
+        if (nm, "Int") not in self.extra_params:
+          self.extra_params.append((nm, "Int"))
+        return nm, I
+      self.err(node, "shape of non-parameter")
     base, tb = self.expr(node.value, env)
     idx = node.slice
     idxs = list(idx.elts) if isinstance(idx, ast.Tuple) else [idx]
     if isinstance(tb, tuple) and tb[0] == "arr":
       if len(idxs) != tb[2]:
         if len(idxs) < tb[2]:
-          self.err(node, "partial array indexing")
+          parts = [self.int_expr(i, env) for i in idxs]
+          return "(" + base + " " + " ".join(parts) + ")", ("arr", tb[1], tb[2] - len(idxs))
         # array of vectors indexed deeper: a[i][k] handled by nested Subscript; a[i, k] on vec dtype
         arr_idx, rest = idxs[: tb[2]], idxs[tb[2]:]
         parts = [self.int_expr(i, env) for i in arr_idx]
         e = "(" + base + " " + " ".join(parts) + ")"
         return self.index_value(node, e, tb[1], rest, env)
       parts = [self.int_expr(i, env) for i in idxs]
-      return "(" + base + " " + " ".join(parts) + ")", tb[1]
+      plain = "(" + base + " " + " ".join(parts) + ")"
+      if isinstance(node.value, ast.Name):
+        root, prefix = self.alias.get(node.value.id, (node.value.id, []))
+        if root in self.written_arrays and "ws" in env.types:
+          fnm = {F: "lookupF", I: "lookupI", B: "lookupB"}.get(tb[1])
+          if fnm is None:
+            self.err(node, f"read of an array of {tb[1]} that this thread also writes")
+          return f"(Write.{fnm} ws \"{root}\" [{', '.join(prefix + parts)}] {plain})", tb[1]
+      return plain, tb[1]
     if isinstance(tb, tuple) and tb[0] == "tuple":
       c = self.const_int(idxs[0], env)
       if c is None:
@@ -433,6 +477,11 @@ class FuncTranslator:
   def index_value(self, node, base, tb, idxs, env):
     if not idxs:
       return base, tb
+    if tb in IVEC:
+      c = self.const_int(idxs[0], env)
+      if c is not None and 0 <= c < IVEC[tb]:
+        return f"{base}.c{c}", I
+      return f"({tb}.get {base} {self.int_expr(idxs[0], env)})", I
     if tb in VEC:
       if len(idxs) != 1:
         self.err(node, "vector with 2 indices")
@@ -511,6 +560,17 @@ class FuncTranslator:
         if all(t == F for _, t in parts):
           return "(⟨" + ", ".join(s for s, _ in parts) + f"⟩ : {ctor} K)", ctor
       self.err(node, f"constructor {fn} with {len(args)} args")
+    ictor = {"wp.vec2i": "I2", "wp.vec3i": "I3", "wp.vec4i": "I4", "vec6i": "I6", "types.vec6i": "I6"}.get(fn)
+    if ictor:
+      n = IVEC[ictor]
+      if len(args) == 0:
+        return f"({ictor}.zero : {ictor})", ictor
+      parts = [self.expr(a, env, I) for a in args]
+      if len(parts) == n and all(t == I for _, t in parts):
+        return "(⟨" + ", ".join(p for p, _ in parts) + f"⟩ : {ictor})", ictor
+      if len(parts) == 1 and parts[0][1] == I:
+        return f"({ictor}.fill {parts[0][0]})", ictor
+      self.err(node, f"constructor {fn}")
     mctor = {"wp.mat33": "M33", "wp.mat33f": "M33", "wp.mat22": "M22", "wp.mat22f": "M22"}.get(fn)
     if mctor:
       r, c, vt = MAT[mctor]
@@ -560,9 +620,17 @@ class FuncTranslator:
       return self.as_bool(a, t, node), B
     if fn == "wp.static":
       v = self.py_eval(args[0], env)
+      if v is None and getattr(self, "is_nested", False):
+        import re as _re
+        nm = "st_" + _re.sub(r"[^A-Za-z0-9]+", "_", ast.unparse(args[0])).strip("_")[:40]
+        ty = "Int" if want == I else "Bool"
+        if (nm, ty) not in self.extra_params:
+          self.extra_params.append((nm, ty))
+        self.static_exprs[nm] = ast.unparse(args[0])
+        return nm, (I if ty == "Int" else B)
       return self.const_value(node, v, want)
     # scalar builtins
-    sc1 = {"wp.sqrt": "sqrt", "wp.sin": "sin", "wp.cos": "cos", "wp.tan": "tan", "wp.asin": "asin", "wp.acos": "acos", "wp.exp": "exp", "wp.log": "log",
+    sc1 = {"wp.ceil": "ceil", "wp.sqrt": "sqrt", "wp.sin": "sin", "wp.cos": "cos", "wp.tan": "tan", "wp.asin": "asin", "wp.acos": "acos", "wp.exp": "exp", "wp.log": "log",
            "wp.floor": "floor", "wp.abs": "abs", "wp.sign": "sign"}
     if fn in sc1:
       (a, t), = self.float_args(args, env)
@@ -680,31 +748,91 @@ class FuncTranslator:
         if t != pt:
           self.err(node, f"argument type {t} for parameter type {pt} in call to {fn}")
         parts.append(s)
-      return "(" + tmod.qualified(tmod.key(tname, spec)) + " (K := K) " + " ".join(parts) + ")", rtype
+      k = tmod.key(tname, spec)
+      for (en, et) in tmod.extras.get(k, []):
+        if en == "fuel":
+          self.needs_fuel = True
+          parts.append("fuel")
+        elif "_shape" in en:
+          pn, dim = en.rsplit("_shape", 1)
+          cal_params = [tmod.lname(x) for x in tmod.pnames[k]]
+          if pn not in cal_params:
+            self.err(node, f"cannot bind extra parameter {en} of {fn}")
+          actual = args[cal_params.index(pn)]
+          if not isinstance(actual, ast.Name):
+            self.err(node, f"shape of non-name argument for {en}")
+          root, prefix = self.alias.get(actual.id, (actual.id, []))
+          nm = f"{self.mod.lname(root)}_shape{int(dim) + len(prefix)}"
+          if root not in self.arr_params:
+            self.err(node, f"shape of non-parameter array {root}")
+          if (nm, "Int") not in self.extra_params:
+            self.extra_params.append((nm, "Int"))
+          parts.append(nm)
+        else:
+          self.err(node, f"callee {fn} needs extra parameter {en}")
+      call = "(" + tmod.qualified(k) + " (K := K) " + " ".join(parts) + ")"
+      if tmod.kinds.get(k) == "wfunc":
+        # rename the callee's array parameter names in its write records to the caller's arrays
+        ren = []
+        for a, pn, pt in zip(args, tmod.pnames[k], ptypes):
+          if isinstance(pt, tuple) and pt[0] == "arr" and isinstance(a, ast.Name):
+            root, prefix = self.alias.get(a.id, (a.id, []))
+            if prefix:
+              self.err(node, f"view passed to a writing function {fn}")
+            ren.append(f'("{pn}", "{root}")')
+        rn = "[" + ", ".join(ren) + "]"
+        self.writes = True
+        if rtype == "WS":
+          call = f"(Write.renameAll {rn} {call})"
+        else:
+          call = f"(let r := {call}; (r.1, Write.renameAll {rn} r.2))"
+      return call, rtype
     self.err(node, f"call {fn}")
 
   # ---- statements ----------------------------------------------------------------------------
   @staticmethod
   def contains_return(stmts) -> bool:
-    for s in stmts:
-      for n in ast.walk(s):
+    """a `return` anywhere, or a `continue`/`break` that belongs to an enclosing loop"""
+    def walk(nodes, in_loop):
+      for n in nodes:
         if isinstance(n, ast.Return):
           return True
-    return False
+        if isinstance(n, (ast.Continue, ast.Break)) and not in_loop:
+          return True
+        if isinstance(n, (ast.For, ast.While)):
+          if walk(n.body, True) or walk(n.orelse, in_loop):
+            return True
+        elif isinstance(n, ast.If):
+          if walk(n.body, in_loop) or walk(n.orelse, in_loop):
+            return True
+    return bool(walk(stmts, False))
 
   @staticmethod
-  def assigned_names(stmts) -> List[str]:
+  def has_real_return(stmts) -> bool:
+    return any(isinstance(n, ast.Return) for s in stmts for n in ast.walk(s))
+
+  def is_array_target(self, t, env) -> bool:
+    return isinstance(t, ast.Subscript) and isinstance(t.value, ast.Name) and (
+      t.value.id in self.alias or (isinstance(env.types.get(t.value.id), tuple) and env.types.get(t.value.id)[0] == "arr"))
+
+  def assigned_names(self, stmts, env=None) -> List[str]:
     out = []
+
+    def add(n):
+      if n not in out and n != "_":
+        out.append(n)
 
     def tgt(t):
       if isinstance(t, ast.Name):
-        if t.id not in out and t.id != "_":
-          out.append(t.id)
+        add(t.id)
       elif isinstance(t, (ast.Tuple, ast.List)):
         for e in t.elts:
           tgt(e)
       elif isinstance(t, ast.Subscript):
-        tgt(t.value)
+        if env is not None and self.is_array_target(t, env):
+          add("ws")
+        else:
+          tgt(t.value)
 
     for s in stmts:
       for n in ast.walk(s):
@@ -713,13 +841,30 @@ class FuncTranslator:
             tgt(t)
         elif isinstance(n, (ast.AugAssign, ast.AnnAssign)):
           tgt(n.target)
-        elif isinstance(n, ast.For):
-          pass
+        elif isinstance(n, ast.Call):
+          fn = ast.unparse(n.func)
+          if fn.startswith("wp.atomic_"):
+            add("ws")
+          else:
+            tg = self.mod.resolve_func(fn)
+            if tg is not None and tg[0].func_writes(tg[1]):
+              add("ws")
     return out
 
-  def stmts(self, stmts: List[ast.stmt], env: Env, tail: Optional[str] = None, depth=0) -> str:
+  def state_tuple(self, names, e: Env, override=None):
+    parts = []
+    for n, t in names:
+      if override and n in override:
+        parts.append(override[n])
+      elif n in e.types:
+        parts.append(f"({e.consts[n]} : Int)" if n in e.consts else self.mod.lname(n))
+      else:
+        parts.append(zero_of(t))
+    return parts[0] if len(parts) == 1 else "(" + ", ".join(parts) + ")"
+
+  def stmts(self, stmts: List[ast.stmt], env: Env, tail=None, depth=0) -> str:
     """Translate a statement list to a Lean expression. `tail` is the expression to use when the list
-    falls off its end (used for if-merging); None means a return is required."""
+    falls off its end (used for if-merging / loop bodies); None means a return is required."""
     ind = "  "
     if not stmts:
       if tail is None:
@@ -730,8 +875,21 @@ class FuncTranslator:
       return self.stmts(rest, env, tail, depth)  # docstring
     if isinstance(s, ast.Pass):
       return self.stmts(rest, env, tail, depth)
+    if isinstance(s, ast.Continue):
+      if not self.loop_stack:
+        self.err(s, "continue outside loop")
+      return self.loop_stack[-1](env, False)
+    if isinstance(s, ast.Break):
+      if not self.loop_stack:
+        self.err(s, "break outside loop")
+      return self.loop_stack[-1](env, True)
     if isinstance(s, ast.Return):
+      if self.loop_stack:
+        self.err(s, "return inside a dynamic loop")
       if s.value is None:
+        if self.ret_type in (None, "WS") and (self.kernel or self.writes):
+          self.ret_type = "WS"
+          return "ws"
         self.err(s, "bare return")
       e, t = self.expr(s.value, env, self.ret_type if self.ret_type in (F, I) else None)
       if isinstance(self.ret_type, tuple) and self.ret_type[0] == "tuple" and isinstance(s.value, ast.Tuple):
@@ -749,50 +907,56 @@ class FuncTranslator:
           e = f"(Scalar.ofInt {e} : K)"
         else:
           self.err(s, f"return type {t} vs declared {self.ret_type}")
+      if self.writes and not self.kernel:
+        return f"({e}, ws)"
       return e
     if isinstance(s, (ast.Assign, ast.AnnAssign, ast.AugAssign)):
       binds = self.assign(s, env)
       body = self.stmts(rest, env, tail, depth)
-      return "\n".join(binds) + "\n" + body
+      return "\n".join(binds + [body]) if binds else body
+    if isinstance(s, ast.Expr) and isinstance(s.value, ast.Call):
+      binds = self.call_stmt(s.value, env)
+      body = self.stmts(rest, env, tail, depth)
+      return "\n".join(binds + [body]) if binds else body
     if isinstance(s, ast.If):
+      # statically decidable conditions (wp.static / constants) are folded
+      if isinstance(s.test, ast.Call) and ast.unparse(s.test.func) == "wp.static":
+        v = self.py_eval(s.test.args[0], env)
+        if isinstance(v, bool):
+          return self.stmts((list(s.body) if v else list(s.orelse)) + rest, env, tail, depth)
+      names = {n.id for n in ast.walk(s.test) if isinstance(n, ast.Name)}
+      if names and all(n in env.consts for n in names if n in env.types) and not any(isinstance(n, ast.Call) for n in ast.walk(s.test)):
+        v = self.py_eval(s.test, env)
+        if isinstance(v, (bool, int)) and any(n in env.consts for n in names):
+          return self.stmts((list(s.body) if v else list(s.orelse)) + rest, env, tail, depth)
       c, ct = self.expr(s.test, env)
       c = self.as_bool(c, ct, s)
-      # static condition?
       if self.contains_return(s.body) or self.contains_return(s.orelse):
         e1 = self.stmts(list(s.body) + rest, env.copy(), tail, depth + 1)
         e2 = self.stmts(list(s.orelse) + rest, env.copy(), tail, depth + 1)
         return f"if {c} then\n{textwrap.indent(e1, ind)}\nelse\n{textwrap.indent(e2, ind)}"
-      names = [n for n in self.assigned_names(list(s.body) + list(s.orelse))]
+      names = self.assigned_names(list(s.body) + list(s.orelse), env)
       env1, env2 = env.copy(), env.copy()
-      # determine types by a dry run
       b1 = self.stmts(list(s.body), env1, tail=lambda e: "⟪TUPLE⟫", depth=depth + 1)
       b2 = self.stmts(list(s.orelse), env2, tail=lambda e: "⟪TUPLE⟫", depth=depth + 1)
       merged = []
       for n in names:
         t = env1.types.get(n) or env2.types.get(n)
         t0 = env.types.get(n)
-        if t0 is not None and t is not None and t0 != t:
+        if t is None:
+          continue
+        if t0 is not None and t0 != t:
           self.err(s, f"variable {n} changes type {t0} -> {t}")
         if n in env1.types and n in env2.types and env1.types[n] != env2.types[n]:
           self.err(s, f"variable {n} has different types in branches")
+        if isinstance(t, tuple) and t[0] == "arr":
+          # a view bound in a branch: keep it local to the branch
+          continue
         merged.append((n, t))
       if not merged:
         return self.stmts(rest, env, tail, depth)
-
-      def tup(e: Env):
-        parts = []
-        for n, t in merged:
-          if n in e.types:
-            if n in e.consts:
-              parts.append(f"({e.consts[n]} : Int)")
-            else:
-              parts.append(self.mod.lname(n))
-          else:
-            parts.append(zero_of(t))
-        return parts[0] if len(parts) == 1 else "(" + ", ".join(parts) + ")"
-
-      b1 = b1.replace("⟪TUPLE⟫", tup(env1))
-      b2 = b2.replace("⟪TUPLE⟫", tup(env2))
+      b1 = b1.replace("⟪TUPLE⟫", self.state_tuple(merged, env1))
+      b2 = b2.replace("⟪TUPLE⟫", self.state_tuple(merged, env2))
       for n, t in merged:
         env.types[n] = t
         env.consts.pop(n, None)
@@ -804,25 +968,183 @@ class FuncTranslator:
       if not (isinstance(it, ast.Call) and ast.unparse(it.func) == "range" and isinstance(s.target, ast.Name)):
         self.err(s, "for loop not over range")
       bounds = [self.const_int(a, env) for a in it.args]
-      if any(b is None for b in bounds):
-        self.err(s, f"dynamic loop bounds {ast.unparse(it)}")
-      rng = list(range(*bounds))
-      if len(rng) > 64:
-        self.err(s, "loop too long to unroll")
-      for n in ast.walk(s):
-        if isinstance(n, (ast.Break, ast.Continue)):
-          self.err(s, "break/continue in loop")
-      unrolled: List[ast.stmt] = []
-      var = s.target.id
-      for v in rng:
-        marker = ast.Assign(targets=[ast.Name(id=var, ctx=ast.Store())], value=ast.Constant(value=v), lineno=s.lineno)
-        marker._loopconst = True
-        unrolled.append(marker)
-        unrolled.extend(s.body)
-      return self.stmts(unrolled + rest, env, tail, depth)
+      has_jump = any(isinstance(n, (ast.Break, ast.Continue)) for n in ast.walk(s))
+      if all(b is not None for b in bounds) and len(range(*bounds)) <= 64 and not has_jump:
+        unrolled: List[ast.stmt] = []
+        var = s.target.id
+        for v in range(*bounds):
+          marker = ast.Assign(targets=[ast.Name(id=var, ctx=ast.Store())], value=ast.Constant(value=v), lineno=s.lineno)
+          marker._loopconst = True
+          unrolled.append(marker)
+          unrolled.extend(s.body)
+        return self.stmts(unrolled + rest, env, tail, depth)
+      return self.dyn_loop(s, rest, env, tail, depth, is_while=False)
+    if isinstance(s, ast.While):
+      return self.dyn_loop(s, rest, env, tail, depth, is_while=True)
     if isinstance(s, ast.Expr):
       self.err(s, f"expression statement {ast.unparse(s)[:50]}")
     self.err(s, f"statement {type(s).__name__}")
+
+  def dyn_loop(self, s, rest, env: Env, tail, depth, is_while):
+    ind = "  "
+    if self.has_real_return(s.body):
+      self.err(s, "return inside a dynamic loop")
+    if s.orelse:
+      self.err(s, "loop else")
+    has_break = False
+    def find_break(nodes):
+      nonlocal has_break
+      for n in nodes:
+        if isinstance(n, ast.Break):
+          has_break = True
+        elif isinstance(n, ast.If):
+          find_break(n.body); find_break(n.orelse)
+    find_break(s.body)
+    assigned = self.assigned_names(s.body, env)
+    state = [(n, env.types[n]) for n in assigned if n in env.types and not (isinstance(env.types[n], tuple) and env.types[n][0] == "arr")]
+    self.fresh += 1
+    brk = f"brk_{self.fresh}"
+    if has_break:
+      state.append((brk, B))
+      env.types[brk] = B
+    if not state:
+      return self.stmts(rest, env, tail, depth)
+    for n, _ in state:
+      env.consts.pop(n, None)
+    st_type = lean_type(state[0][1]) if len(state) == 1 else "(" + " × ".join(lean_type(t) for _, t in state) + ")"
+    pat = self.mod.lname(state[0][0]) if len(state) == 1 else "(" + ", ".join(self.mod.lname(n) for n, _ in state) + ")"
+    init = self.state_tuple(state, env, {brk: "false"} if has_break else None)
+
+    def loop_tail(e, is_break):
+      return self.state_tuple(state, e, {brk: "true"} if (is_break and has_break) else None)
+
+    env_b = env.copy()
+    if not is_while:
+      var = s.target.id
+      env_b.types[var] = I
+      env_b.consts.pop(var, None)
+      args = list(s.iter.args)
+      if len(args) == 1:
+        lo, hi = "(0 : Int)", self.int_expr(args[0], env)
+      elif len(args) == 2:
+        lo, hi = self.int_expr(args[0], env), self.int_expr(args[1], env)
+      else:
+        self.err(s, "range with step in dynamic loop")
+    self.loop_stack.append(loop_tail)
+    try:
+      body = self.stmts(list(s.body), env_b, tail=lambda e: loop_tail(e, False), depth=depth + 1)
+    finally:
+      self.loop_stack.pop()
+    for n, t in state:
+      if env_b.types.get(n) != t:
+        self.err(s, f"loop state variable {n} changes type")
+    if is_while:
+      env_c = env.copy()
+      c, ct = self.expr(s.test, env_c)
+      c = self.as_bool(c, ct, s)
+      if has_break:
+        c = f"((!{brk}) && {c})"
+      self.needs_fuel = True
+      loop = (f"Mjw.whileFuel fuel (fun (st : {st_type}) =>\n    let {pat} := st\n    {c}) (fun (st : {st_type}) =>\n    let {pat} := st\n"
+              f"{textwrap.indent(body, ind * 2)}) {init}")
+    else:
+      if has_break:
+        body = f"if {brk} then st else\n{body}"
+      loop = (f"Mjw.forRange {lo} {hi} {init} (fun ({self.mod.lname(s.target.id)} : Int) (st : {st_type}) =>\n    let {pat} := st\n"
+              f"{textwrap.indent(body, ind * 2)})")
+    cont = self.stmts(rest, env, tail, depth)
+    return f"let {pat} := {loop}\n{cont}"
+
+  def scan_written(self):
+    """array parameters (roots) this function writes or atomically updates, flow-insensitively"""
+    views = {n: n for n in self.arr_params}
+    out = set()
+    changed = True
+    while changed:
+      changed = False
+      for n in ast.walk(self.fn):
+        if isinstance(n, ast.Assign) and len(n.targets) == 1 and isinstance(n.targets[0], ast.Name):
+          v = n.value
+          src = None
+          if isinstance(v, ast.Subscript) and isinstance(v.value, ast.Name) and v.value.id in views:
+            src = views[v.value.id]
+          elif isinstance(v, ast.Name) and v.id in views:
+            src = views[v.id]
+          if src is not None and n.targets[0].id not in views:
+            views[n.targets[0].id] = src
+            changed = True
+    for n in ast.walk(self.fn):
+      if isinstance(n, (ast.Assign, ast.AugAssign)):
+        tgts = n.targets if isinstance(n, ast.Assign) else [n.target]
+        for t in tgts:
+          if isinstance(t, ast.Subscript) and isinstance(t.value, ast.Name) and t.value.id in views:
+            out.add(views[t.value.id])
+      elif isinstance(n, ast.Call) and ast.unparse(n.func).startswith("wp.atomic_") and n.args and isinstance(n.args[0], ast.Name) and n.args[0].id in views:
+        out.add(views[n.args[0].id])
+    return out
+
+  def write_val(self, e, t, node):
+    if t == F:
+      return f"(WVal.f {e})"
+    if t == I:
+      return f"(WVal.i {e})"
+    if t == B:
+      return f"(WVal.b {e})"
+    if t in VEC or t in MAT:
+      return f"(WVal.v ({t}.toList {e}))"
+    if t in IVEC:
+      return f"(WVal.iv ({t}.toList {e}))"
+    self.err(node, f"write of value type {t}")
+
+  def array_target(self, target, env):
+    """-> (root array name, [index exprs], element type)"""
+    nm = target.value.id
+    idx = target.slice
+    idxs = list(idx.elts) if isinstance(idx, ast.Tuple) else [idx]
+    t = env.types.get(nm)
+    root, prefix = self.alias.get(nm, (nm, []))
+    if not (isinstance(t, tuple) and t[0] == "arr"):
+      self.err(target, f"write target {nm} is not an array")
+    if len(idxs) != t[2]:
+      self.err(target, f"write with {len(idxs)} indices into {t[2]}-d array/view")
+    return root, prefix + [self.int_expr(i, env) for i in idxs], t[1]
+
+  def emit_write(self, root, idxs, val, kind, env):
+    self.writes = True
+    env.types["ws"] = "WS"
+    return f"let ws : List (Write K) := ws ++ [(Write.mk \"{root}\" [{', '.join(idxs)}] {val} WKind.{kind} : Write K)]"
+
+  def call_stmt(self, call, env: Env) -> List[str]:
+    fn = ast.unparse(call.func)
+    if fn.startswith("wp.atomic_"):
+      return [self.atomic(call, env, None)]
+    tg = self.mod.resolve_func(fn)
+    if tg is not None and tg[0].func_writes(tg[1]):
+      e, t = self.expr(call, env)
+      return [f"let ws : List (Write K) := ws ++ ({e})" if t == "WS" else f"let ws : List (Write K) := ws ++ ({e}).2"]
+    if fn in ("wp.printf", "print", "wp.print"):
+      return []
+    self.err(call, f"call statement {fn}")
+
+  def atomic(self, call, env: Env, result_name):
+    fn = ast.unparse(call.func)
+    kind = fn.split("_", 1)[1]
+    if kind not in ("add", "sub", "min", "max", "or", "and"):
+      self.err(call, fn)
+    arr = call.args[0]
+    if not isinstance(arr, ast.Name):
+      self.err(call, "atomic on non-name")
+    t = env.types.get(arr.id)
+    if not (isinstance(t, tuple) and t[0] == "arr"):
+      self.err(call, "atomic on non-array")
+    root, prefix = self.alias.get(arr.id, (arr.id, []))
+    idxs = prefix + [self.int_expr(a, env) for a in call.args[1:-1]]
+    if len(idxs) != t[2] + len(prefix):
+      self.err(call, "atomic index arity")
+    v, tv = self.expr(call.args[-1], env, t[1] if t[1] in (F, I) else None)
+    if tv != t[1]:
+      self.err(call, f"atomic value type {tv} vs {t[1]}")
+    return self.emit_write(root, idxs, self.write_val(v, tv, call), "a" + kind, env)
 
   def assign(self, s, env: Env) -> List[str]:
     if isinstance(s, ast.AugAssign):
@@ -852,8 +1174,51 @@ class FuncTranslator:
     return t2
 
   def assign_to(self, target, value, env: Env, s) -> List[str]:
+    if isinstance(value, ast.Call) and ast.unparse(value.func) == "wp.tid":
+      if not self.kernel:
+        self.err(s, "wp.tid() outside a kernel")
+      tg = [target] if isinstance(target, ast.Name) else list(target.elts)
+      out = []
+      for k, tname in enumerate(tg):
+        env.types[tname.id] = I
+        env.consts.pop(tname.id, None)
+        out.append(f"let {self.mod.lname(tname.id)} : Int := tid{k}")
+      self.ntid = max(getattr(self, "ntid", 0), len(tg))
+      return out
+    if isinstance(target, ast.Name) and isinstance(value, ast.Call) and ast.unparse(value.func).startswith("wp.atomic_"):
+      # allocation: the value returned by the atomic is an input of the thread (supplied by the launch-level model)
+      if self.loop_stack:
+        self.err(s, "atomic with used result inside a dynamic loop")
+      self.fresh += 1
+      an = f"alloc{len([1 for n, _ in self.extra_params if n.startswith('alloc')])}"
+      arr = value.args[0]
+      t = env.types.get(arr.id) if isinstance(arr, ast.Name) else None
+      if not (isinstance(t, tuple) and t[0] == "arr"):
+        self.err(s, "atomic on non-array")
+      self.extra_params.append((an, lean_type(t[1])))
+      w = self.atomic(value, env, an)
+      env.types[target.id] = t[1]
+      env.consts.pop(target.id, None)
+      return [w, f"let {self.mod.lname(target.id)} : {lean_type(t[1])} := {an}"]
+    if isinstance(target, ast.Subscript) and self.is_array_target(target, env):
+      root, idxs, et = self.array_target(target, env)
+      e, te = self.expr(value, env, et if et in (F, I) else None)
+      if te == I and et == F:
+        e, te = f"(Scalar.ofInt {e} : K)", F
+      if te != et:
+        self.err(s, f"write of {te} into array of {et}")
+      return [self.emit_write(root, idxs, self.write_val(e, te, s), "set", env)]
     if isinstance(target, ast.Name):
       want = env.types.get(target.id)
+      if want in (None, I) and not self.loop_stack:
+        c = self.const_int(value, env)
+        if c is not None and not isinstance(value, ast.Constant) or (c is not None and want == I):
+          pass
+        if c is not None and not (isinstance(value, ast.Call) and ast.unparse(value.func) in ("int", "wp.int32") and isinstance(value.args[0], ast.Constant)):
+          # a compile-time integer (loop-unrolled index arithmetic, enum members): keep it symbolic-free
+          env.types[target.id] = I
+          env.consts[target.id] = c
+          return [f"let {self.mod.lname(target.id)} : Int := ({c} : Int)"]
       e, t = self.expr(value, env, want if want in (F, I) else None)
       if want is not None and want != t:
         if want == F and t == I:
@@ -862,6 +1227,18 @@ class FuncTranslator:
           self.err(s, f"variable {target.id} changes type {want} -> {t}")
       env.types[target.id] = t
       env.consts.pop(target.id, None)
+      if isinstance(t, tuple) and t[0] == "arr":
+        # a view of an array (row); remember what it aliases so that writes through it are attributed
+        v = value
+        if isinstance(v, ast.Subscript) and isinstance(v.value, ast.Name):
+          root, prefix = self.alias.get(v.value.id, (v.value.id, []))
+          ix = v.slice
+          ixs = list(ix.elts) if isinstance(ix, ast.Tuple) else [ix]
+          self.alias[target.id] = (root, prefix + [self.int_expr(i, env) for i in ixs])
+        elif isinstance(v, ast.Name):
+          self.alias[target.id] = self.alias.get(v.id, (v.id, []))
+        else:
+          self.err(s, "array-valued expression")
       return [f"let {self.mod.lname(target.id)} : {lean_type(t)} := {e}"]
     if isinstance(target, (ast.Tuple, ast.List)):
       if isinstance(value, ast.Tuple) and len(value.elts) == len(target.elts):
@@ -907,6 +1284,13 @@ class FuncTranslator:
           return [f"let {ln} : {lean_type(t)} := {{ {ln} with c{c} := {e} }}"]
         i = self.int_expr(idxs[0], env)
         return [f"let {ln} : {lean_type(t)} := {t}.set {ln} {i} {e}"]
+      if t in IVEC and len(idxs) == 1:
+        e, te = self.expr(value, env, I)
+        c = self.const_int(idxs[0], env)
+        if te == I and c is not None:
+          return [f"let {ln} : {t} := {{ {ln} with c{c} := {e} }}"]
+        if te == I:
+          return [f"let {ln} : {t} := {t}.set {ln} {self.int_expr(idxs[0], env)} {e}"]
       if t in MAT and len(idxs) == 2 and te == F:
         ci, cj = self.const_int(idxs[0], env), self.const_int(idxs[1], env)
         if ci is not None and cj is not None:
@@ -936,12 +1320,39 @@ class FuncTranslator:
     if self.fn.returns is not None and ast.unparse(self.fn.returns) not in ("None", "Any"):
       self.ret_type = ann_type(self.fn.returns)
     env = Env({n: t for n, t in params}, {})
-    body = self.stmts(list(self.fn.body), env)
+    self.arr_params = {n: t for n, t in params if isinstance(t, tuple) and t[0] == "arr"}
+    self.written_arrays = self.scan_written()
+    self.writes = self.kernel or self.mod.func_writes(self.name)
+    if self.writes:
+      env.types["ws"] = "WS"
+    if self.kernel:
+      self.ret_type = "WS"
+      body = self.stmts(list(self.fn.body), env, tail=lambda e: "ws")
+    elif self.writes and self.ret_type is None:
+      body = self.stmts(list(self.fn.body), env, tail=lambda e: "ws")
+      if self.ret_type is None:
+        self.ret_type = "WS"
+    else:
+      body = self.stmts(list(self.fn.body), env)
     if self.ret_type is None:
       self.err(self.fn, "no return type")
+    rt = self.ret_type
+    if self.writes and not self.kernel and rt != "WS":
+      rt = ("tuple", (rt, "WS"))
+    if self.writes:
+      body = "let ws : List (Write K) := []\n" + body
     sig = " ".join(f"({self.mod.lname(n)} : {lean_type(t)})" for n, t in params)
-    src = f"def {self.mod.lname(self.mod.key(self.name, self.spec))} {{K : Type}} [Scalar K] {sig} : {lean_type(self.ret_type)} :=\n{textwrap.indent(body, '  ')}\n"
-    return src, [t for _, t in params], self.ret_type
+    extra = list(self.extra_params)
+    if self.needs_fuel:
+      extra.append(("fuel", "Nat"))
+    if self.kernel:
+      extra += [(f"tid{k}", "Int") for k in range(getattr(self, "ntid", 0))]
+    sig += " " + " ".join(f"({n} : {t})" for n, t in extra)
+    lname = self.mod.lname(self.mod.key(self.name, self.spec))
+    src = f"def {lname} {{K : Type}} [Scalar K] {sig} : {lean_type(rt)} :=\n{textwrap.indent(body, '  ')}\n"
+    self.extra_out = extra
+    self.param_names = [n for n, _ in params]
+    return src, [t for _, t in params], rt
 
 
 _LEAN_KEYWORDS = {"at", "from", "in", "end", "do", "then", "else", "if", "let", "have", "show", "fun", "match", "with", "open", "local", "prefix",
@@ -959,13 +1370,30 @@ class ModuleTranslator:
     self.source = open(self.path).read()
     self.tree = ast.parse(self.source)
     self.funcs: Dict[str, ast.FunctionDef] = {}
-    for n in self.tree.body:
-      if isinstance(n, ast.FunctionDef):
-        self.funcs[n.name] = n
+    self.nested = set()
+
+    def collect(body, prefix):
+      for n in body:
+        if isinstance(n, ast.FunctionDef):
+          nm = prefix + n.name
+          self.funcs[nm] = n
+          if prefix:
+            self.nested.add(nm)
+          collect(n.body, nm + ".")
+        elif isinstance(n, (ast.If, ast.With, ast.Try)):
+          collect(getattr(n, "body", []), prefix)
+          collect(getattr(n, "orelse", []), prefix)
+
+    collect(self.tree.body, "")
+    self._writes_cache = {}
     self.module = importlib.import_module(f"mujoco_warp._src.{pyname}")
     self.globals = dict(vars(self.module))
     self.sigs: Dict[str, Tuple[list, object]] = {}
     self.pynames: Dict[str, str] = {}
+    self.extras: Dict[str, list] = {}
+    self.statics: Dict[str, dict] = {}
+    self.kinds: Dict[str, str] = {}
+    self.pnames: Dict[str, list] = {}
     self.out: Dict[str, str] = {}
     self.errors: Dict[str, str] = {}
     self.in_progress = set()
@@ -1013,12 +1441,55 @@ class ModuleTranslator:
   def is_wp_func(fn: ast.FunctionDef) -> bool:
     return any(ast.unparse(d) in ("wp.func", "wp.func_native") for d in fn.decorator_list)
 
+  @staticmethod
+  def is_kernel(fn: ast.FunctionDef) -> bool:
+    for d in fn.decorator_list:
+      u = ast.unparse(d)
+      if u == "wp.kernel" or u.startswith("wp.kernel(") or u == "nested_kernel" or u.startswith("nested_kernel("):
+        return True
+    return False
+
+  def func_writes(self, fname) -> bool:
+    """does this function (transitively) write to / atomically update an array parameter?"""
+    if fname in self._writes_cache:
+      return self._writes_cache[fname]
+    self._writes_cache[fname] = False
+    fn = self.funcs.get(fname)
+    res = False
+    if fn is not None:
+      arrs = set()
+      for p in fn.args.args:
+        if p.annotation is not None and "array" in ast.unparse(p.annotation):
+          arrs.add(p.arg)
+      views = set(arrs)
+      for n in ast.walk(fn):
+        if isinstance(n, ast.Assign) and len(n.targets) == 1 and isinstance(n.targets[0], ast.Name) and isinstance(n.value, ast.Subscript) \
+            and isinstance(n.value.value, ast.Name) and n.value.value.id in views:
+          pass
+      for n in ast.walk(fn):
+        if isinstance(n, (ast.Assign, ast.AugAssign)):
+          tgts = n.targets if isinstance(n, ast.Assign) else [n.target]
+          for t in tgts:
+            if isinstance(t, ast.Subscript) and isinstance(t.value, ast.Name) and (t.value.id in arrs or t.value.id.endswith("_out")):
+              res = True
+        elif isinstance(n, ast.Call):
+          u = ast.unparse(n.func)
+          if u.startswith("wp.atomic_"):
+            res = True
+          else:
+            tg = self.resolve_func(u)
+            if tg is not None and tg != (self, fname) and tg[0].func_writes(tg[1]):
+              res = True
+    self._writes_cache[fname] = res
+    return res
+
   def is_generic(self, fname):
     fn = self.funcs.get(fname)
     return fn is not None and any(p.annotation is not None and ast.unparse(p.annotation) == "Any" for p in fn.args.args)
 
   @staticmethod
   def key(fname, spec):
+    fname = fname.replace(".", "__")
     if spec is None:
       return fname
     def tn(t):
@@ -1044,7 +1515,14 @@ class ModuleTranslator:
       if fn is None:
         raise Unsupported(f"{self.pyname}.{fname}: no such function")
       ft = FuncTranslator(self, fn, spec)
+      ft.name = fname
+      ft.kernel = self.is_kernel(fn)
+      ft.is_nested = fname in self.nested
       src, ptypes, rtype = ft.translate()
+      self.extras[k] = ft.extra_out
+      self.statics[k] = ft.static_exprs
+      self.kinds[k] = "kernel" if ft.kernel else ("wfunc" if ft.writes else "func")
+      self.pnames[k] = ft.param_names
       self.sigs[k] = (ptypes, rtype)
       self.pynames[k] = fname
       self.out[k] = src
